@@ -138,9 +138,12 @@ def unit_lean():
 
 
 def units(tier):
-    return [("unit_lemmas", ())] + ([("unit_lean", ())] if tier == "thorough" else []) + \
+    us = [("unit_lemmas", ())] + ([("unit_lean", ())] if tier == "thorough" else []) + \
         [("unit", (m, s)) for m in extract.MODELS for s in shapes(tier, nmax=3 if tier == "quick" else 5)] + \
         [("unit", (m, (1,) * n, True)) for m in extract.MODELS for n in range(2, (3 if tier == "quick" else 5) + 1)]
+    if tier == "quick":
+        us += [("unit", (m, (1,) * 6)) for m in extract.MODELS]
+    return us
 
 
 def main(tier, seed):
